@@ -262,6 +262,13 @@ def snapshot(o, fmt, obj):
 def do_call(chunks, call, seq, fmt):
   """every way of reaching a strategy and of passing the arguments"""
   strat, via, style = call["strat"], call["via"], call["style"]
+  if via == "default":                               # through the user-settable default strategy
+    saved = chunks.default
+    chunks.default = chunks[strat]
+    try:
+      return do_call(chunks, dict(call, via="dict"), seq, fmt)
+    finally:
+      chunks.default = saved
   f = chunks[strat] if via == "item" else getattr(chunks, strat) if via == "attr" else chunks
   size, order, pad = call["size"], call["order"], _val(fmt, call["pad"])
   if style == "pos":
@@ -285,7 +292,7 @@ def _pad(fmt, rng):
 
 def _call(obj, fmt, rng, size=None, strat=None):
   strat = strat or rng.choice(["struct", "array"])
-  return {"obj": obj, "strat": strat, "via": rng.choice(["item", "attr"] + (["default"] if strat == "struct" else [])),
+  return {"obj": obj, "strat": strat, "via": rng.choice(["item", "attr", "default", "dict"] if strat == "struct" else ["item", "attr", "default"]),
           "style": rng.choice(["kw", "pos", "omit"]), "size": size or rng.randrange(1, 10),
           "order": rng.choice(ORDERS), "pad": _pad(fmt, rng)}
 
@@ -310,6 +317,12 @@ def gen_ckinds(tier, rng):
         calls = [c0] + [_call(0, fmt, rng) for _ in range(rng.choice([1, 1, 2]))]
         if rng.random() < 0.3:                       # same size again, only the pad value differs
           calls[1]["size"] = c0["size"]
+        if fmt in "bhi" and rng.random() < 0.3:      # a refused call (pad value out of range: the error comes with the
+          bad = _call(0, fmt, rng, size=_nondividing(n, rng))   # padded tail) must leave the object as it was
+          bad["pad"] = rng.choice([1 << (8 * FMTW[fmt] - 1), -(1 << (8 * FMTW[fmt] - 1)) - 1])
+          calls.insert(1, bad)
+        if rng.random() < 0.15:                      # size left to chunks.size, which the user has set
+          calls[-1]["setsize"] = calls[-1]["size"]; calls[-1]["size"] = None
         probe = _call(0, fmt, rng, size=1, strat=rng.choice(["struct", "array"]))
         yield {"fmt": fmt, "objs": [obj], "calls": calls + [probe], "sched": None,
                "tags": ["fmt=" + fmt, "kind=" + kind] + ["strat0=" + c0["strat"]]}
@@ -380,9 +393,15 @@ def run_chist(c):
       res[i]["raised"] = type(e).__name__; return iter(())
   if c["sched"] is None:
     for i, cl in enumerate(calls):
-      g = start(i)
-      while pull(i, g):
-        pass
+      if cl.get("setsize"):
+        chunks.size = cl["setsize"]
+      try:
+        g = start(i)
+        while pull(i, g):
+          pass
+      finally:
+        if cl.get("setsize"):
+          del chunks.size
       res[i]["after"] = snapshot(c["objs"][cl["obj"]], fmt, objs[cl["obj"]])
   else:
     gens = [start(i) for i in range(len(calls))]
@@ -408,7 +427,7 @@ def lit_chist(c, o):
     r = o["calls"][i] if "calls" in o else {"chunks": [], "raised": o.get("raise", "?"), "after": None}
     after = "None" if r["after"] is None else "(Some %s)" % L.lst([L.z(v) for v in r["after"]])
     ks.append("(KK %s %s %s %s %s (CO %s %s) %s)" % (
-      L.nat(cl["obj"]), "SStruct" if cl["strat"] == "struct" else "SArray", L.nat(2048 if cl["size"] is None else cl["size"]),
+      L.nat(cl["obj"]), "SStruct" if cl["strat"] == "struct" else "SArray", L.nat((cl.get("setsize") or 2048) if cl["size"] is None else cl["size"]),
       ORD_COQ[cl["order"]], L.z(cl["pad"]), L.lst([_zl(ch) for ch in r["chunks"]]), L.boolean(r["raised"] is not None), after))
   return "(KC F%s %s %s %s)" % (c["fmt"], objs, L.lst([L.nat(i) for i in (c["sched"] or [])]), L.lst(ks))
 
@@ -416,5 +435,5 @@ def lit_chist(c, o):
 def nontrivial_chist(c, o):
   # a padded tail in the first call and a later call on the same object
   c0 = c["calls"][0]
-  n = len(c["objs"][c0["obj"]]["xs"]); s = c0["size"] or 2048
+  n = len(c["objs"][c0["obj"]]["xs"]); s = c0["size"] or c0.get("setsize") or 2048
   return n % s != 0 and len(c["calls"]) >= 2
